@@ -308,6 +308,21 @@ def run(ctx):
                                 continue
                             cases.append({'kind': 'extrap', 'k': k, 'order': order, 'deg': deg, 'mode': mode,
                                           'rtype': rtype, 'call': call, 'xsrc': xsrc, 'seed': seed})
+    if not ctx.quick:
+        # every k-subset of the 7-size pool (unequal node spacings), ascending and descending
+        seen = set(tuple(c['order']) for c in cases)
+        for k in range(1, 7):
+            for sub in itertools.combinations(PTS_POOL, k):
+                for order in (list(sub), list(reversed(sub))):
+                    if tuple(order) in seen:
+                        continue
+                    seen.add(tuple(order))
+                    for deg in list(range(k)) + [-1]:
+                        for mode in ('lin', 'log'):
+                            for rtype, xsrc in (('array', 'dyadic'), ('spectrum', 'grid')):
+                                cases.append({'kind': 'extrap', 'k': k, 'order': order, 'deg': deg, 'mode': mode,
+                                              'rtype': rtype, 'call': 'pos', 'xsrc': xsrc, 'seed': seed})
+        ctx.note('thorough tier: additionally every k-subset of the pool %s, ascending and descending' % PTS_POOL)
     if ctx.quick:
         ctx.note('quick tier: for k=6, every 6th ordering (122 of 720) is enumerated; thorough enumerates all 720')
         ctx.cap_hit('k=6 orderings thinned to 122/720 in quick tier; k<=5 complete (153 orderings)')
